@@ -872,31 +872,34 @@ def replay(pid, path):
 # selftest (mutants)
 # --------------------------------------------------------------------------
 def selftest(ids):
-    mdir = os.path.join(VERIF, "mutants")
+    """Mutation self-test over the independently seeded breakages (seeded/<id>/patch.diff): every seed
+    whose meta.json has `caught_by` must make that check exit 1; applied to a scratch copy, never to /repo."""
+    sdir = os.path.join(VERIF, "seeded")
     ok = True
     rows = []
-    for fn in sorted(os.listdir(mdir)):
-        if not fn.endswith(".patch"):
+    for d in sorted(os.listdir(sdir)):
+        meta = load_json(os.path.join(sdir, d, "meta.json"), {})
+        cb = meta.get("caught_by")
+        if not cb or (ids and d not in ids and cb["check"] not in ids):
             continue
-        pid = fn.split("-")[0]
-        if ids and pid not in ids:
-            continue
-        tmp = os.path.join(SCRATCH_BASE, f"verif-mut-{os.getpid()}")
+        tmp = os.path.join(SCRATCH_BASE, f"verif-seed-{os.getpid()}")
         shutil.rmtree(tmp, ignore_errors=True)
         subprocess.check_call(["rsync", "-a", "--exclude", "/target", "--exclude", ".git", REPO + "/", tmp + "/"])
-        r = subprocess.run(["patch", "-p1", "-s", "-i", os.path.join(mdir, fn)], cwd=tmp)
+        r = subprocess.run(["patch", "-p1", "-s", "-i", os.path.join(sdir, d, "patch.diff")], cwd=tmp)
         if r.returncode != 0:
-            log(f"[selftest] {fn}: patch does not apply"); ok = False
+            log(f"[selftest] {d}: patch does not apply")
+            ok = False
             shutil.rmtree(tmp, ignore_errors=True)
             continue
-        tier = "thorough" if ".thorough." in fn else "quick"
-        rc, _ = run_property(pid, tier, repo=tmp, evidence=False)
+        os.environ["VERIF_ONLY"] = cb["obligation"].replace("verus.", "") if not cb["obligation"].startswith("verus.") else "__none__"
+        rc, _ = run_property(cb["check"], "quick", repo=tmp, evidence=False)
+        os.environ.pop("VERIF_ONLY", None)
         shutil.rmtree(tmp, ignore_errors=True)
-        rows.append((fn, rc))
-        log(f"[selftest] {fn}: exit {rc} ({'KILLED' if rc == 1 else 'SURVIVED' if rc == 0 else 'UNDECIDED'})")
+        rows.append((d, cb["check"], rc))
+        log(f"[selftest] seed {d} vs {cb['check']}: exit {rc} ({'KILLED' if rc == 1 else 'SURVIVED' if rc == 0 else 'UNDECIDED'})")
         if rc != 1:
             ok = False
-    log("[selftest] summary: " + ", ".join(f"{f}={rc}" for f, rc in rows))
+    log("[selftest] summary: " + ", ".join(f"{d}/{c}={rc}" for d, c, rc in rows))
     return 0 if ok else 1
 
 
